@@ -474,3 +474,23 @@ def outcome_dist(runs, label):
         k = lf[1] if lf[0] == "OUT" else lf
         out[k] = out.get(k, 0.0) + p
     return out
+
+
+def explore_kinds(sim, fn, kinds, exp=None, cap=20000, heap=True):
+    """Like explore(), but branches only at choice points whose kind is in `kinds`; every other
+    choice takes its default (outcome 0).  Used where a property quantifies over one draw only
+    (e.g. which nodes `rho` selects)."""
+    stack = [()]
+    n = 0
+    while stack:
+        prefix = stack.pop()
+        r = run_once(sim, fn, prefix, exp=exp, heap=heap)
+        n += 1
+        if n > cap:
+            raise CapHit("execution cap %d exceeded" % cap)
+        ch = [t[2] for t in r.trace]
+        for i in range(len(prefix), len(r.trace)):
+            if r.trace[i][0] in kinds:
+                for alt in range(1, len(r.trace[i][1])):
+                    stack.append(tuple(ch[:i]) + (alt,))
+        yield r
